@@ -33,7 +33,7 @@ def replay(chk, path):
             print("  ", e)
         return 0 if ok else 1
     impl_dir = vlib.build_impl("asan")
-    hbin = vlib.build_harness(rp.get("harness") or chk.harness, impl_dir, "asan", chk.wraps, lib=chk.lib)
+    hbin = vlib.build_harness(rp.get("harness") or chk.harness, impl_dir, "asan", chk.wraps, lib=rp.get("lib") or chk.lib)
     text = "\n".join(ops) + "\n"
     im, rc, err = vlib.run_proc([hbin], text)
     vlib.lake_build(["qdriver"])
